@@ -376,7 +376,8 @@ Definition gop_run (f : N) (cfg : list N) (gen : N) (o : gop) : outcome N * list
       else (Err EUnsupported, [], 0)
   | GNetHeader => (Ok (if bit f B_VERSION_1 then 12 else 10), [], 0)
   | GNetSend len =>
-      (Ok 0, chain_ev f [if bit f B_VERSION_1 then 12 else 10; len] [] 1, used_event_after f)
+      (* an empty packet is sent as the header alone (no zero-length buffer is added to the queue) *)
+      (Ok 0, chain_ev f ((if bit f B_VERSION_1 then 12 else 10) :: (if len =? 0 then [] else [len])) [] 1, used_event_after f)
   | GRngRequest len => (Ok len, chain_ev f [] [len] 0, used_event_after f)
   end.
 
